@@ -77,12 +77,10 @@ func kvSetup(t *testing.T) {
 func kvRenew(t *testing.T) {
 	var err error
 	if kvRefSrv != nil {
-		// addresses are never reused; closing the old servers also kills zombies
+		// The old servers stay up (abandoned): closing them would let the OS hand their
+		// ports to new servers, and the wrapper's process-wide client manager still
+		// holds clients with dead pooled connections for such addresses.
 		kvRef.Close()
-		go kvRefSrv.Close()
-		for _, m := range kvShards {
-			go m.Close()
-		}
 	}
 	for i := range kvShards {
 		if kvShards[i], err = miniredis.Run(); err != nil {
